@@ -8,7 +8,9 @@
    Logarithms are the abstract functions flog2 / flog10 / fln. *)
 From Coq Require Import List ZArith NArith Bool Arith Lia QArith Qcanon Qcabs.
 From LMBase Require Import Res ListX IEEE.
-From LMPwm Require Import GenComplement PwmModel PwmCheck PwmProofs PwmExact.
+From Coq Require Import Reals Qreals Qabs.
+From Flocq Require Import Core BinarySingleNaN.
+From LMPwm Require Import GenComplement PwmModel PwmCheck PwmProofs PwmExact PwmF32 PwmCheckSound PwmF32Rescale.
 Import ListNotations.
 Local Open Scope nat_scope.
 
@@ -191,6 +193,133 @@ Proof.
   split; apply Qcle_refl.
 Qed.
 
+(* binary32 (Flocq), EXACT: min_score, max_score and score_position add one cell per row
+   in the same order and rounded addition is monotone, so the bounds hold without any
+   tolerance whenever the three values are not NaN (a NaN can only come from inf - inf
+   and propagates to the result).  min_score / max_score returning Ok already excludes
+   NaN cells (partial_cmp(..).unwrap() panics on them: Panic 10). *)
+Theorem C09_window_between_min_max_f32 :
+  forall (K C : nat) (m : list (list F32.t)) (s : list nat) (pos : nat) (mn mx : F32.t),
+    0 < C -> Forall (fun row => length row = K) m -> pos + length m <= length s ->
+    Forall (fun x => x < K - 1) (firstn (length m) (skipn pos s)) ->
+    min_score F32ops K m = Ok mn -> max_score F32ops K m = Ok mx ->
+    exists w, score_position F32ops K C m s pos = Ok w /\
+      (F32.is_nan mn = false -> F32.is_nan w = false -> F32.le mn w = true) /\
+      (F32.is_nan w = false -> F32.is_nan mx = false -> F32.le w mx = true).
+Proof. exact window_between_min_max_f32. Qed.
+
+(* the extracted window check never rejects the binary32 model: a PROPFAIL
+   "window-outside-min-max" can only come from the implementation *)
+Theorem C09_model_passes_check_window :
+  forall (K C : nat) (m : list (list F32.t)) (s : list nat) (pos : nat) (mn mx : F32.t),
+    0 < C -> Forall (fun row => length row = K) m -> pos + length m <= length s ->
+    Forall (fun x => x < K) s -> window_clean K (length m) s pos = true ->
+    min_score F32ops K m = Ok mn -> max_score F32ops K m = Ok mx ->
+    exists w, score_position F32ops K C m s pos = Ok w /\ check_window mn mx w = true.
+Proof. exact model_passes_check_window. Qed.
+
+Theorem C09_check_window_sound :
+  forall mn mx w, check_window mn mx w = true ->
+    F32.is_nan mn = false -> F32.is_nan mx = false -> F32.is_nan w = false ->
+    F32.le mn w = true /\ F32.le w mx = true.
+Proof. exact check_window_sound. Qed.
+
+(* ---- binary32 weights and rescaled weights: error bounds from the operations performed
+        (standard model of round-to-nearest with gradual underflow: RN(z) = z(1+d)+e,
+        |d| <= u = 2^-24, |e| <= eta = 2^-150), and what the extracted checkers state ---- *)
+
+(* the rational value the checkers compute with is the real value of the binary32 number *)
+Theorem C09_f32_to_Q_is_real_value :
+  forall (x : F32.t) (q : Q), f32_to_Q x = Some q -> Q2R q = B2R x /\ is_finite x = true.
+Proof. exact f32_to_Q_B2R. Qed.
+
+(* weight = RN(f / bg): one rounding *)
+Theorem C09_weight_f32_error :
+  forall f o : F32.t,
+    is_finite f = true -> is_finite o = true -> (0 < B2R o)%R ->
+    let x := F32.div f o in
+    is_finite x = true ->
+    (Rabs (B2R x * B2R o - B2R f) <= u32 * Rabs (B2R f) + B2R o * eta32)%R.
+Proof. exact weight_f32_error. Qed.
+
+(* rescaled weight = RN(RN(f/old) * RN(old/new)): three roundings; the eta term carries
+   the weight x = f/old when old/new underflows gradually (subnormal old background) *)
+Theorem C09_rescale_f32_error :
+  forall f o n : F32.t,
+    is_finite f = true -> is_finite o = true -> is_finite n = true ->
+    (0 < B2R o)%R -> (0 < B2R n)%R ->
+    let x := F32.div f o in let q := F32.div o n in let w := F32.mul x q in
+    is_finite x = true -> is_finite q = true -> is_finite w = true ->
+    (Rabs (B2R w * B2R n - B2R f)
+     <= ((1 + u32) ^ 3 - 1) * Rabs (B2R f)
+        + (Rabs (B2R x) * B2R n * (1 + u32) + B2R o * (1 + u32) ^ 2 + B2R n) * eta32)%R.
+Proof. exact rescale_f32_error. Qed.
+
+(* hence the binary32 model passes the extracted checks with the driver's tolerances
+   (weights: 1e-6 relative + 2^-60; rescale: 1e-5 relative + underflow term + 2^-60) for
+   every background entry in (0,1] and every frequency, unless a value overflows:
+   a PROPFAIL of these checks cannot be caused by binary32 rounding *)
+Theorem C09_weight_model_passes_check :
+  forall f o : F32.t,
+    is_finite f = true -> is_finite o = true -> (0 < B2R o <= 1)%R ->
+    let x := F32.div f o in
+    is_finite x = true ->
+    check_weight_cell (1 # 1000000) (1 # Pos.pow 2 60) f o (weight_cell F32ops f o) = true.
+Proof. exact weight_model_passes_check. Qed.
+
+Theorem C09_rescale_model_passes_check :
+  forall f o n : F32.t,
+    is_finite f = true -> is_finite o = true -> is_finite n = true ->
+    (0 < B2R o <= 1)%R -> (0 < B2R n <= 1)%R ->
+    let x := F32.div f o in let q := F32.div o n in let w := F32.mul x q in
+    is_finite x = true -> is_finite q = true -> is_finite w = true ->
+    check_rescale_cell (1 # 100000) (1 # Pos.pow 2 60) f o n
+      (rescale_cell F32ops (weight_cell F32ops f o) o n) = true.
+Proof. exact rescale_model_passes_check. Qed.
+
+(* what a [true] of the extracted weight / rescale / background checkers states *)
+Theorem C09_check_weight_cell_sound :
+  forall rel tiny f bg w, check_weight_cell rel tiny f bg w = true ->
+    (F32.eq bg F32.zero = true -> F32.eq w F32.zero = true) /\
+    (F32.eq bg F32.zero = false -> forall qf qb qw,
+       f32_to_Q f = Some qf -> f32_to_Q bg = Some qb -> f32_to_Q w = Some qw ->
+       (Qabs (qw * qb - qf) <= rel * Qabs qf + tiny)%Q).
+Proof. exact check_weight_cell_sound. Qed.
+
+Theorem C09_check_rescale_cell_sound :
+  forall rel tiny f old new w, check_rescale_cell rel tiny f old new w = true ->
+    (F32.eq new F32.zero = true -> F32.eq w F32.zero = true) /\
+    (F32.eq new F32.zero = false -> F32.eq old F32.zero = false -> forall qf qo qn qw,
+       f32_to_Q f = Some qf -> f32_to_Q old = Some qo -> f32_to_Q new = Some qn -> f32_to_Q w = Some qw ->
+       (Qabs (qw * qn - qf) <= rel * Qabs qf + (Qabs qf / Qabs qo) * Qabs qn * (1 # (2 ^ 149)) + tiny)%Q).
+Proof. exact check_rescale_cell_sound. Qed.
+
+Theorem C09_check_bg_counts_sound :
+  forall eps counts obs, check_bg_counts eps counts obs = true ->
+    let total := fold_left N.add counts 0%N in
+    if (total =? 0)%N then exists c, obs = Err c
+    else exists l, obs = Ok l /\ length l = length counts /\
+         forall k, k < length counts -> exists q,
+           f32_to_Q (nth k l F32.zero) = Some q /\
+           (Qabs (q - (Z.of_N (nth k counts 0%N) # 1) / (Z.of_N total # 1)) <= eps)%Q.
+Proof. exact check_bg_counts_sound. Qed.
+
+(* an accepted background / frequency matrix that the checkers do not flag is valid on
+   its exact values (up to the slack) *)
+Theorem C09_bg_must_reject_sound :
+  forall slack l, bg_must_reject slack l = false ->
+    exists q, all_some (map f32_to_Q l) = Some q /\
+              Forall (fun x => (0 <= x)%Q /\ (x <= 1)%Q) q /\ (Qabs (Qsum q - 1) <= slack)%Q.
+Proof. exact bg_must_reject_sound. Qed.
+
+Theorem C09_freq_must_reject_sound :
+  forall slack m, freq_must_reject slack m = false ->
+    Forall (fun row => match all_some (map f32_to_Q row) with
+                       | Some q => (Qabs (Qsum q - 1) <= (1 # 100) + slack)%Q
+                       | None => existsb F32.is_nan row = false
+                       end) m.
+Proof. exact freq_must_reject_sound. Qed.
+
 (* ---- acceptance ---- *)
 
 (* Background::new as coded (any carrier, hence binary32): accepted iff every entry
@@ -275,3 +404,19 @@ Check C09_one_step_eq_two_step :
   forall (T : Type) (O : NumOps T) (flog2 flog10 fln : T -> T) (bg : list T) (m : list (list T)),
     flog2 (n_zero O) = n_ninf O -> n_eqb O (n_two O) (n_two O) = true ->
     into_scoring O flog2 bg m = to_scoring O flog2 flog10 fln (to_weight O bg m).
+Check C09_window_between_min_max_f32 :
+  forall (K C : nat) (m : list (list F32.t)) (s : list nat) (pos : nat) (mn mx : F32.t),
+    0 < C -> Forall (fun row => length row = K) m -> pos + length m <= length s ->
+    Forall (fun x => x < K - 1) (firstn (length m) (skipn pos s)) ->
+    min_score F32ops K m = Ok mn -> max_score F32ops K m = Ok mx ->
+    exists w, score_position F32ops K C m s pos = Ok w /\
+      (F32.is_nan mn = false -> F32.is_nan w = false -> F32.le mn w = true) /\
+      (F32.is_nan w = false -> F32.is_nan mx = false -> F32.le w mx = true).
+Check C09_rescale_model_passes_check :
+  forall f o n : F32.t,
+    is_finite f = true -> is_finite o = true -> is_finite n = true ->
+    (0 < B2R o <= 1)%R -> (0 < B2R n <= 1)%R ->
+    let x := F32.div f o in let q := F32.div o n in let w := F32.mul x q in
+    is_finite x = true -> is_finite q = true -> is_finite w = true ->
+    check_rescale_cell (1 # 100000) (1 # Pos.pow 2 60) f o n
+      (rescale_cell F32ops (weight_cell F32ops f o) o n) = true.
